@@ -50,6 +50,17 @@ CHECKS.update({
              text="Generated-input search: selection (overloads by parameter names, optional parameters, k-th overload), escaping (decoded literal == extracted text for all XML-1.0 Unicode incl. quotes, backslashes, C1 controls, NBSP, astral), empty docstring for missing/partial/ill-formed XML without an error, and identity of the rest of the TU.",
              note="Trusted: the C++ literal decoder in checks/c17.py (greedy \\x, 3-digit octal, UCNs), vlib.pyscan. A g++ compile of the literals is not part of the registered commands.", ref="3/C17"),
 })
+CHECKS.update({
+ 'C05': dict(tech="Hypothesis model-based generation + structural oracle on the scanned toolbox: id <-> case <-> routine bijection, contiguity, role/class/member/overload agreement between .m call sites and MEX routines, id count from the model",
+             text="Generated-input search over what moves the id counter (virtual classes, bases, defaulted constructors/methods, properties, free functions in namespaces, templates, serialization, ignore lists). Cannot show absence.",
+             note="Trusted: vlib.matscan (line scanner of .m and wrapper .cpp, validated on the 11 fixtures), vlib.refmat count rule.", ref="3/C05"),
+ 'C06': dict(tech="Hypothesis model-based generation + positional-fact oracle: offered arities/type families vs declared overloads with defaults expanded; per branch checkArguments count, unwrap indices/names/primitives, call arguments incl. omitted defaults verbatim, callee, return wrapping and output counts",
+             text="Generated-input search over callables (constructors, methods, static methods, free functions), parameter lists, suffix default masks, passing modes (incl. enums) and return shapes; compares scanned structure with the instantiated model, never cosmetic strings.",
+             note="Trusted: vlib.refmat (unwrap_mode / passes_deref rules read from the property statement and DOCS), vlib.matscan. Three golden-pinned defects are open findings (F-12, F-27, F-28) and excluded by construction.", ref="3/C06"),
+ 'C10': dict(tech="Hypothesis model-based generation x ignore lists x serialization + oracle: output file set and parsed classdef/enum/MEX-preamble structure == structure computed from the model",
+             text="Generated-input search: exact file set with package paths, classdef base/pointer property/constructor/delete/method/static/accessor inventory, enumerator numbering, collectors/clean-up/RTTI in the MEX preamble.",
+             note="Trusted: vlib.matscan, vlib.refmat.expected_toolbox. Templated base classes are excluded while F-29 (golden-pinned) is open.", ref="3/C10"),
+})
 PENDING = {}
 
 def main():
